@@ -21,11 +21,24 @@ QUTIP_CONST = {"sigmax": ("2", "!![0, 1; 1, 0]"), "sigmay": ("2", "!![0, -Comple
 
 
 class Tr:
-    def __init__(self, params, known):
+    """mode 'C': noncomputable ℂ terms (theorems);  mode 'F': computable complex floats (translator validation)."""
+
+    def __init__(self, params, known, mode="C"):
         self.params = params
         self.known = known   # name -> (dim, param names) of already translated functions
+        self.mode = mode
 
     def num(self, v):
+        if self.mode == "F":
+            if isinstance(v, bool):
+                raise TranslatorError("bool literal")
+            if isinstance(v, (int, float)):
+                fr = Fraction(v)
+                return f"(CF.ofRat ({fr.numerator}) {fr.denominator})"
+            if isinstance(v, complex) and v.real == 0:
+                fr = Fraction(v.imag)
+                return f"(CF.I * CF.ofRat ({fr.numerator}) {fr.denominator})"
+            raise TranslatorError(f"literal {v!r}")
         if isinstance(v, bool):
             raise TranslatorError("bool literal")
         if isinstance(v, int):
@@ -49,10 +62,10 @@ class Tr:
             return self.num(e.value)
         if isinstance(e, ast.Name):
             if e.id in self.params:
-                return f"({e.id} : ℂ)"
+                return f"({e.id} : ℂ)" if self.mode == "C" else f"(CF.ofReal {e.id})"
             raise TranslatorError(f"unknown name {e.id}")
         if isinstance(e, ast.Attribute) and isinstance(e.value, ast.Name) and e.value.id == "np" and e.attr == "pi":
-            return "(Real.pi : ℂ)"
+            return "(Real.pi : ℂ)" if self.mode == "C" else "CF.pi"
         if isinstance(e, ast.UnaryOp) and isinstance(e.op, ast.USub):
             return f"(-{self.scalar(e.operand)})"
         if isinstance(e, ast.BinOp):
@@ -64,11 +77,12 @@ class Tr:
                 and e.func.value.id == "np" and len(e.args) == 1:
             f = e.func.attr
             if f in ("cos", "sin", "exp"):
-                return f"(Complex.{f} {self.scalar(e.args[0])})"
+                return f"({'Complex' if self.mode == 'C' else 'CF'}.{f} {self.scalar(e.args[0])})"
             if f == "sqrt":
                 a = e.args[0]
                 if isinstance(a, ast.Constant) and float(a.value) == int(a.value) and a.value >= 0:
-                    return f"((Real.sqrt {int(a.value)} : ℝ) : ℂ)"
+                    return (f"((Real.sqrt {int(a.value)} : ℝ) : ℂ)" if self.mode == "C"
+                            else f"(CF.ofReal (Float.sqrt {int(a.value)}))")
                 raise TranslatorError("sqrt of a non-literal")
         raise TranslatorError("scalar expression " + ast.dump(e)[:80])
 
@@ -81,6 +95,8 @@ class Tr:
         if any(len(r.elts) != n for r in e.elts) or n not in (2, 4, 8):
             raise TranslatorError("matrix literal is not 2x2, 4x4 or 8x8")
         rows = [", ".join(self.scalar(x) for x in r.elts) for r in e.elts]
+        if self.mode == "F":
+            return n, "[" + ",\n      ".join("[" + r + "]" for r in rows) + "]"
         return n, "!![" + ";\n      ".join(rows) + "]"
 
     def matrix(self, e):
@@ -94,6 +110,8 @@ class Tr:
                 return self.matrix(a)
             if fn in QUTIP_CONST and not e.args:
                 d, t = QUTIP_CONST[fn]
+                if self.mode == "F":
+                    return int(d), "CF." + fn
                 return int(d), f"({t} : Matrix (Fin {d}) (Fin {d}) ℂ)"
             if fn in self.known:
                 d, ps = self.known[fn]
@@ -113,11 +131,11 @@ class Tr:
             except TranslatorError:
                 s = self.scalar(e.left)
                 d, m = self.matrix(e.right)
-                return d, f"({s} • {m})"
+                return d, (f"({s} • {m})" if self.mode == "C" else f"(CF.smul {s} {m})")
             dr, r = self.matrix(e.right)
             if dl != dr:
                 raise TranslatorError("product of matrices of different size")
-            return dl, f"({l} * {r})"
+            return dl, (f"({l} * {r})" if self.mode == "C" else f"(CF.mmul {l} {r})")
         raise TranslatorError("matrix expression " + ast.dump(e)[:80])
 
 
@@ -129,7 +147,7 @@ def parse_functions(src):
 def translate_gates():
     path = os.path.join(REPO, "src", "qutip_qip", "operations", "gates.py")
     fns = parse_functions(open(path).read())
-    known, defs = {}, []
+    known, defs, defsF = {}, [], []
     order = [f for f in FUNCS if f not in ("qasmu_gate",)] + ["qasmu_gate"]
     for name in order:
         fn = fns.get(name)
@@ -149,10 +167,13 @@ def translate_gates():
         if not rets:
             raise TranslatorError(f"{name}: no top-level return")
         d, term = Tr(params, known).matrix(rets[-1].value)
+        _, termF = Tr(params, known, "F").matrix(rets[-1].value)
         known[name] = (d, params)
         sig = "".join(f" ({p} : ℝ)" for p in params)
         defs.append(f"noncomputable def {name}_{sig} : Matrix (Fin {d}) (Fin {d}) ℂ :=\n  {term}\n")
-    return known, defs
+        sigF = "".join(f" ({p} : Float)" for p in params)
+        defsF.append(f"def {name}_{sigF} : List (List CF) :=\n  {termF}\n")
+    return known, defs, defsF
 
 
 def name_chain():
@@ -163,6 +184,13 @@ def name_chain():
 
     def callspec(e):
         # function name + how the arguments are taken from the gate
+        if isinstance(e, ast.IfExp):                      # `a if not is_qutip5 else a(dtype=..)`
+            return callspec(e.body)
+        if isinstance(e, ast.Call) and isinstance(e.func, ast.Attribute):
+            if e.func.attr == "tidyup":                    # cphase(..).tidyup()
+                return callspec(e.func.value)
+            if isinstance(e.func.value, ast.Name) and e.func.value.id == "qutip" and e.func.attr in QUTIP_CONST:
+                return e.func.attr + "()"
         if isinstance(e, ast.Call) and isinstance(e.func, ast.Name):
             f = e.func.id
             args = []
@@ -223,8 +251,24 @@ def name_chain():
     return out, classes, class_map
 
 
+def renderF(known, defsF):
+    L = ["import QipVerif.Num.CF",
+         "/-! GENERATED by py/translate/gates.py — the same gate functions as Gen/GateDefs.lean, rendered from the same",
+         "syntax trees as computable complex-float matrices; used only to validate the translator against the code. -/",
+         "namespace QipVerif.Gen.GF\nopen QipVerif\n"]
+    L += defsF
+    L.append("def eval (fn : String) (a : List Float) : Option (List (List CF)) :=")
+    L.append("  match fn, a with")
+    for name, (d, ps) in known.items():
+        pat = "[" + ", ".join(f"a{i}" for i in range(len(ps))) + "]"
+        L.append(f'  | "{name}", {pat} => some ({" ".join([name + "_"] + [f"a{i}" for i in range(len(ps))])})')
+    L.append("  | _, _ => none\n")
+    L.append("end QipVerif.Gen.GF")
+    return "\n".join(L) + "\n"
+
+
 def render():
-    known, defs = translate_gates()
+    known, defs, defsF = translate_gates()
     chain, classes, class_map = name_chain()
     L = ["import Mathlib.Analysis.SpecialFunctions.Trigonometric.Basic",
          "import Mathlib.Analysis.SpecialFunctions.Sqrt",
@@ -240,11 +284,65 @@ def render():
     L.append("def classPath : List (String × String) :=\n  [" +
              ",\n   ".join(f'("{k}", "{classes.get(v, "?")}")' for k, v in class_map.items()) + "]\n")
     L.append("end QipVerif.Gen.G")
-    return "\n".join(L) + "\n", chain, classes, class_map
+    return "\n".join(L) + "\n", renderF(known, defsF), known, chain, classes, class_map
+
+
+def spec_to_lean(spec, known, alias):
+    """call specification -> (lean term, number of real parameters) or None if not translatable"""
+    spec = alias.get(spec, spec)
+    if spec.endswith("()") and spec[:-2] in QUTIP_CONST:
+        d, t = QUTIP_CONST[spec[:-2]]
+        return f"({t} : Matrix (Fin {d}) (Fin {d}) ℂ)", 0, int(d)
+    if spec.startswith("controlled_gate(") and spec.endswith(")"):
+        inner = spec_to_lean(spec[len("controlled_gate("):-1], known, alias)
+        if inner is None or inner[2] != 2:
+            return None
+        return f"(ctrl {inner[0]})", inner[1], 4
+    name, _, rest = spec.partition("(")
+    args = rest[:-1]
+    if name in known:
+        d, ps = known[name]
+        if args == "" and not ps:
+            return f"{name}_", 0, d
+        if args in ("arg", "*arg") and ps:
+            return "(" + " ".join([name + "_"] + [f"a{i}" for i in range(len(ps))]) + ")", len(ps), d
+    return None
+
+
+def render_paths(known, chain, classes, class_map):
+    # functions that just return a qutip constant: x_gate() == sigmax()
+    alias = {}
+    L = ["import QipVerif.Gen.GateDefs", "import QipVerif.Lemmas.GatePathTac",
+         "/-! GENERATED by py/translate/gates.py — for every gate name offered both by `Gate(name)` and by",
+         "`GATE_CLASS_MAP[name]`, the two paths denote the same matrix for all parameter values. -/",
+         "namespace QipVerif.Gen.G\nopen QipVerif.GatePath\n"]
+    names = []
+    skipped = []
+    for name, cls in class_map.items():
+        g = chain.get(name)
+        c = classes.get(cls)
+        if g is None or g == "raise":
+            continue
+        a = spec_to_lean(g, known, alias) if g else None
+        b = spec_to_lean(c, known, alias) if c else None
+        if a is None or b is None or a[1] != b[1]:
+            skipped.append((name, g, c))
+            continue
+        ident = "".join(ch if ch.isalnum() else "_" for ch in name)
+        sig = "".join(f" (a{i} : ℝ)" for i in range(a[1]))
+        L.append(f"theorem path_{ident}{sig} : {a[0]} = {b[0]} := by gate_path_tac\n")
+        names.append(f"QipVerif.Gen.G.path_{ident}")
+    L.append("end QipVerif.Gen.G")
+    return "\n".join(L) + "\n", names, skipped
 
 
 def regenerate():
     from translate.decomp import write_if_changed
-    src, chain, classes, class_map = render()
+    src, srcF, known, chain, classes, class_map = render()
     changed = write_if_changed(os.path.join(LEAN, "QipVerif", "Gen", "GateDefs.lean"), src)
-    return changed, chain, classes, class_map
+    changed |= write_if_changed(os.path.join(LEAN, "QipVerif", "Gen", "GateDefsF.lean"), srcF)
+    psrc, pnames, skipped = render_paths(known, chain, classes, class_map)
+    changed |= write_if_changed(os.path.join(LEAN, "QipVerif", "Gen", "GatePaths.lean"), psrc)
+    regenerate.path_theorems = pnames
+    regenerate.path_skipped = skipped
+    return changed, known, chain, classes, class_map
